@@ -267,6 +267,30 @@ class Path:
                         self.solver.add(rt == strval(f(xv)))
                     else:
                         self.solver.pop()
+            # refinement of str.split(): choose the split string as the join of the names the model puts in the set
+            for (st, arr) in self.ghost.get("split_apps", [])[:4]:
+                qs = self.ghost.get("set_queries_by_id", {}).get(arr.get_id(), [])
+                try:
+                    vals = []
+                    for q in qs:
+                        qv = unesc(m.eval(q, model_completion=True).as_string())
+                        if qv not in [v for v, _ in vals]:
+                            vals.append((qv, z3.is_true(m.eval(z3.Select(arr, q), model_completion=True))))
+                except Exception:
+                    continue
+                if any((" " in v or v == "") for v, _ in vals):
+                    continue
+                cand = " ".join(v for v, inside in vals if inside)
+                self.solver.push()
+                self.solver.add(st == strval(cand))
+                for v, inside in vals:
+                    self.solver.add(z3.Select(arr, strval(v)) == z3.BoolVal(inside))
+                if self.solver.check() == z3.sat:
+                    m = self.solver.model()
+                    self.solver.pop()
+                    self.solver.add(st == strval(cand))
+                else:
+                    self.solver.pop()
             out = {}
             for name, (const, kind) in self.inputs.items():
                 if kind == "set":
